@@ -297,9 +297,19 @@ class Run:
         pf = PerceptionPassFailConfig(evaluator_config=self.config, **self.scn.passfail[k])
         return crit, pf
 
-    def add(self, k: int, negate: bool = False, critical: Optional[Dict[str, Any]] = None) -> Any:
+    def add(self, k: int, negate: bool = False, critical: Optional[Dict[str, Any]] = None, no_ego_pose: bool = False) -> Any:
         f = self.scn.frames[k]
         gt = self.manager.get_ground_truth_now_frame(f.t)
+        if no_ego_pose:
+            # an ego-frame ground-truth frame built without an ego pose (FrameGroundTruth(transforms=None)): positions are
+            # already ego-relative, so nothing in the evaluation may depend on the registry being empty
+            import copy as _copy
+
+            from perception_eval.common.transform import TransformDict
+
+            assert self.frame_id == "base_link"
+            gt = _copy.copy(gt)
+            gt.transforms = TransformDict()
         ests = self.scn.make_estimates(k, self.frame_id, self.config.label_converter, negate=negate)
         crit, pf = self.configs(k)
         if critical is not None:
